@@ -14,6 +14,7 @@ import numpy as np
 
 OPS = {"+": operator.add, "-": operator.sub, "*": operator.mul, "/": operator.truediv, "**": operator.pow}
 LEAVES = ["P2", "P3", "PT", "int", "float"]
+SPECIAL = [1, 0.5, 1.0, 3]  # numbers that are neutral for some operator on one side (1 * x, x ** 1, x / 1) and not on the other (1 ** x, 1 / x)
 
 RULE = (
     "cases = batches of expression trees over {+,-,*,/,**} and leaves {2-D Parameter, 3-D Parameter, "
@@ -78,6 +79,8 @@ def make_leaf(kind, variant=0):
         return 2 + variant
     if kind == "float":
         return 1.5 + variant
+    if kind == "num":
+        return SPECIAL[variant % len(SPECIAL)]
     raise ValueError(kind)
 
 
@@ -100,6 +103,8 @@ def ref_leaf(kind, variant, x, y, z, t):
         return 2 + variant
     elif kind == "float":
         return 1.5 + variant
+    elif kind == "num":
+        return SPECIAL[variant % len(SPECIAL)]
     r = np.asarray(r).squeeze()
     return r.item() if r.ndim == 0 else r
 
@@ -126,7 +131,7 @@ def ref_eval(tree, x, y, z, t):
 
 
 def is_number(tree):
-    return tree[0] == "leaf" and tree[1] in ("int", "float")
+    return tree[0] == "leaf" and tree[1] in ("int", "float", "num")
 
 
 def td(tree):
@@ -181,6 +186,17 @@ def gen_cases(tier, seed):
             for lf in LEAVES:
                 trees.append(("op", op, t1, ("leaf", lf, 0)))
                 trees.append(("op", op, ("leaf", lf, 0), t1))
+    # neutral numbers on either side of every operator, at depth 1 and around / inside depth-1 subtrees
+    for op in OPS:
+        for i in range(len(SPECIAL)):
+            for lf in ("P2", "P3", "PT"):
+                trees.append(("op", op, ("leaf", "num", i), ("leaf", lf, 0)))
+                trees.append(("op", op, ("leaf", lf, 0), ("leaf", "num", i)))
+            for t1 in (d1[int(rng.integers(len(d1)))] for _ in range(3 if tier == "quick" else 12)):
+                trees.append(("op", op, ("leaf", "num", i), t1))
+                trees.append(("op", op, t1, ("leaf", "num", i)))
+                o2 = list(OPS)[int(rng.integers(5))]
+                trees.append(("op", o2, ("op", op, ("leaf", "num", i), ("leaf", "PT", 0)), t1))
     n22 = 1500 if tier == "quick" else 12000
     ops = list(OPS)
     for _ in range(n22):
@@ -260,7 +276,9 @@ def check_tree(tree, rng, V, C):
         leaves = {}
         comp_shared = build(tree, leaves)
         zs2 = zs + 0.731
-        for (x, y, z, t) in ((xs, ys, zs, 0.37), (xs, ys, zs, 0.37), (xs, ys, zs2, 0.37), (xs, ys, zs, 1.9), (xs, ys2_(ys), zs, 1.9), (xs, ys, zs, 0.37)):
+        # (times that are close to each other, and the pair -1.0 / -2.0 whose Python hashes coincide: a time is a time)
+        for (x, y, z, t) in ((xs, ys, zs, 0.37), (xs, ys, zs, 0.37), (xs, ys, zs2, 0.37), (xs, ys, zs, 1.9), (xs, ys2_(ys), zs, 1.9), (xs, ys, zs, 0.37),
+                             (xs, ys, zs, 1000.001), (xs, ys, zs, 1000.002), (xs, ys, zs, 0.37 + 1e-9), (xs, ys, zs, -1.0), (xs, ys, zs, -2.0), (xs, ys, zs, 1000.001)):
             try:
                 with np.errstate(all="ignore"):
                     want = ref_eval(tree, x, y, z, t)
@@ -274,7 +292,7 @@ def check_tree(tree, rng, V, C):
                 break
             # operands themselves still evaluate correctly
             for (kind, variant), leaf in leaves.items():
-                if kind in ("int", "float"):
+                if kind in ("int", "float", "num"):
                     continue
                 try:
                     lw = ref_leaf(kind, variant, x, y, z, t)
